@@ -41,7 +41,7 @@ def bounds(tier):
             "weights": [False, True], "image dtype": ["complex128", "float64"],
             "recons": {"SenseRecon": ["CG", "GradientMethod", "PDHG", "ADMM"], "TotalVariationRecon": ["PDHG(default)", "ADMM"],
                        "L1WaveletRecon": ["GradientMethod(default)", "PDHG", "ADMM"]},
-            "lamda": [0, 0.05], "data": ["consistent", "noisy"], "conditioning": "2 coils with binary weights dropping ~40% of k-space (6 masks; cond up to 1e5)", "maps": ["generic", "one coil with zero map and zero data (index 0 or last)"]}
+            "lamda": [0, 0.05], "data": ["consistent", "noisy"], "integer-typed options": "sigma / rho given as the Python ints 2 and 1", "conditioning": "2 coils with binary weights dropping ~40% of k-space (6 masks; cond up to 1e5)", "maps": ["generic", "one coil with zero map and zero data (index 0 or last)"]}
 
 
 IMGS = [[2, 3], [3, 3], [4, 4], [2, 2, 3]]
@@ -86,6 +86,15 @@ def gen_cases(tier, seed):
                                 if solver == "ADMM" and data == "noisy" and not wts and bs is None:
                                     cases.append(dict(kind="recon", app=app, solver=solver, lamda=lam, batch_size=bs, coord=cf,
                                                       data=data, weights=wts, rho=2.0))
+    # step-size options given as Python ints (sigma=2, rho=2), as a user would type them
+    for app, solver, opt in (("TotalVariationRecon", None, "sigma"), ("SenseRecon", "PrimalDualHybridGradient", "sigma"),
+                             ("L1WaveletRecon", "PrimalDualHybridGradient", "sigma"), ("TotalVariationRecon", "ADMM", "rho"),
+                             ("SenseRecon", "ADMM", "rho")):
+        for cf in (None, "random"):
+            for data in ("consistent", "noisy"):
+                for val in (2, 1):
+                    cases.append(dict(kind="recon", app=app, solver=solver, lamda=0.05 if app == "SenseRecon" else 0.02, batch_size=None,
+                                      coord=cf, data=data, weights=False, intopt=[opt, val]))
     for lam in (0, 0.05):
         for wm in (1, 2, 3, 4, 5, 6):
             cases.append(dict(kind="recon", app="SenseRecon", solver=None, lamda=lam, batch_size=None, coord=None,
@@ -278,6 +287,8 @@ def run_recon(case, seed):
         kw["max_cg_iter"] = 20
         if case.get("rho"):
             kw["rho"] = case["rho"]
+    if case.get("intopt"):
+        kw[case["intopt"][0]] = int(case["intopt"][1])
     y0 = y.copy()
     np.random.seed((seed + 4242) % 2 ** 32)
     if app_name == "SenseRecon":
